@@ -21,3 +21,4 @@ PAIRS += [_hc.page_collect_pair()]      # per-page step of a collection: empty =
 import seg_common as _sc2
 PAIRS += [_sc2.pairs()[k] for k in ('segment_page_free',)]      # last page freed => segment freed; only abandoned pages left => segment abandoned
 PAIRS += [_sc2.pairs()['page_clear']]      # a freed page is wiped (no stale list pointers), its span returned once, the segment counts one page less
+PAIRS += [_pc.collect_retired_pair()]      # a retired (empty, kept) page is found again and freed when its count-down ends or the collect is forced
